@@ -509,6 +509,9 @@ def standard_proof_stage(res, prop, extra_targets=(), allowed=None, gen_fn=None)
         except Exception as e:  # translator is fail-closed
             res.oblige('A:model regenerates from /repo source (py2coq)', False, '%s: %s' % (type(e).__name__, e))
             return False
+    # build every file of the development first (keep going: a file that another property's source broke must not
+    # stop this one); helper files that only the correspondence / certificate shards Require get built this way
+    coq_make(['-k', 'all'], timeout=3000)
     ok, out = coq_make(['props/%s.vo' % prop] + list(extra_targets))
     if not ok:
         # find which file failed
